@@ -2596,6 +2596,9 @@ def concatenate(arrays: Sequence[Array], axis: int = 0) -> Array:
     if not arrays:
         raise ValueError("need at least one array to stack")
 
+    if not (0 <= axis < arrays[0].ndim):
+        raise ValueError("invalid axis")
+
     def shape_except_axis(ary: Array) -> ShapeType:
         return ary.shape[:axis] + ary.shape[axis+1:]
 
@@ -2603,9 +2606,6 @@ def concatenate(arrays: Sequence[Array], axis: int = 0) -> Array:
         if shape_except_axis(array) != shape_except_axis(arrays[0]):
             raise ValueError("arrays must have the same shape except along"
                     f" dimension #{axis}.")
-
-    if not (0 <= axis <= arrays[0].ndim):
-        raise ValueError("invalid axis")
 
     return Concatenate(tuple(arrays), axis,
                        tags=_get_default_tags(),
